@@ -5,11 +5,13 @@ import (
 	"fmt"
 
 	"github.com/go-i2p/common/data"
+	"github.com/go-i2p/common/destination"
 	"github.com/go-i2p/common/key_certificate"
 	"github.com/go-i2p/common/keys_and_cert"
 	"github.com/go-i2p/common/lease"
 	"github.com/go-i2p/common/lease_set2"
 	"github.com/go-i2p/common/offline_signature"
+	"github.com/go-i2p/common/router_identity"
 	"github.com/go-i2p/common/signature"
 )
 
@@ -180,22 +182,56 @@ func runC10(c *Ctx) {
 				w := id.Encode()
 				tail := r.Bytes(r.Intn(9))
 				in := cat(w, tail)
-				var p Parsed
+				// through every reader of the family: the generic reader must accept every supported
+				// pair; the type-specific readers, ReadDestination and ReadRouterIdentity may refuse,
+				// but whatever any of them accepts must have the layout
 				for i := range parsers {
-					if parsers[i].Name == "ReadKeysAndCert" {
-						p = runParser(c, &parsers[i], in, nil)
+					var k *keys_and_cert.KeysAndCert
+					name := parsers[i].Name
+					switch name {
+					case "ReadKeysAndCert", "ReadKeysAndCertElgAndEd25519", "ReadKeysAndCertX25519AndEd25519", "ReadDestination", "ReadRouterIdentity":
+					default:
+						continue
 					}
-				}
-				ok := p.OK
-				detail := "rejected"
-				if ok {
-					k := p.Val.(*keys_and_cert.KeysAndCert)
+					runParser(c, &parsers[i], in, nil)
+					// acceptance is what the reader itself says (err == nil), whether or not the value
+					// can be serialised afterwards
+					var rem []byte
+					var err error
+					switch name {
+					case "ReadKeysAndCert":
+						k, rem, err = keys_and_cert.ReadKeysAndCert(cp(in))
+					case "ReadKeysAndCertElgAndEd25519":
+						k, rem, err = keys_and_cert.ReadKeysAndCertElgAndEd25519(cp(in))
+					case "ReadKeysAndCertX25519AndEd25519":
+						k, rem, err = keys_and_cert.ReadKeysAndCertX25519AndEd25519(cp(in))
+					case "ReadDestination":
+						var d destination.Destination
+						d, rem, err = destination.ReadDestination(cp(in))
+						k = d.KeysAndCert
+					case "ReadRouterIdentity":
+						var ri *router_identity.RouterIdentity
+						ri, rem, err = router_identity.ReadRouterIdentity(cp(in))
+						if ri != nil {
+							k = ri.KeysAndCert
+						}
+					}
+					if err != nil {
+						if name == "ReadKeysAndCert" {
+							c.Check("key_block_layout", false, name, [][]byte{in}, "", "rejected")
+						}
+						continue
+					}
+					if k == nil || k.ReceivingPublic == nil || k.SigningPublic == nil || k.KeyCertificate == nil {
+						c.Check("key_block_layout", false, name, [][]byte{in}, "", "accepted value without keys")
+						continue
+					}
 					pub, spk := k.ReceivingPublic.Bytes(), k.SigningPublic.Bytes()
 					cl, sl := specCryptoLen[cr], specSigPubLen[s]
-					ok = bytes.Equal(pub, in[:cl]) && bytes.Equal(spk, in[384-sl:384]) && bytes.Equal(k.Padding, in[cl:384-sl]) &&
+					ok := bytes.Equal(pub, in[:cl]) && bytes.Equal(spk, in[384-sl:384]) && bytes.Equal(k.Padding, in[cl:384-sl]) &&
 						k.KeyCertificate.CryptoSize() == len(pub) && k.KeyCertificate.SigningPublicKeySize() == len(spk) &&
-						len(pub) == cl && len(spk) == sl && bytes.Equal(p.Rem, tail)
-					detail = fmt.Sprintf("sig %d crypto %d: pub=%d spk=%d pad=%d", s, cr, len(pub), len(spk), len(k.Padding))
+						len(pub) == cl && len(spk) == sl && bytes.Equal(rem, tail)
+					detail := fmt.Sprintf("sig %d crypto %d: pub=%d spk=%d pad=%d", s, cr, len(pub), len(spk), len(k.Padding))
 					// the serialiser lays the block out the same way
 					if ok {
 						out, err := k.Bytes()
@@ -204,8 +240,8 @@ func runC10(c *Ctx) {
 							detail += fmt.Sprintf("; serialised block differs: %x", out)
 						}
 					}
+					c.Check("key_block_layout", ok, name, [][]byte{in}, "", detail)
 				}
-				c.Check("key_block_layout", ok, "ReadKeysAndCert", [][]byte{in}, "", detail)
 			}
 		}
 	}
